@@ -727,7 +727,7 @@ theorem stopSeen_stopperAt (t : Th) (a : Queue.Thread) (h : a.outcome = t.a.outc
     stopSeen t' = stopSeen t := by
   simp [stopSeen, seenQ, ha, stopperAt, h]
 
-set_option maxHeartbeats 800000 in
+set_option maxHeartbeats 400000 in
 theorem good_stepL2 {c c' : Cfg} {tid : Tid} {t : Th} {alt : Bool} {lbl : String} (hg : Good c)
     (ht : c.ths[tid]? = some t) (hr : t.role = .l2) (h : stepL2 F c tid t alt = some (lbl, c')) : Good c' := by
   have hi := hg.inv
